@@ -150,7 +150,19 @@ func reportProperty(e *Engine, o runOpts, res *propResult) int {
 	known := 0
 	bySolver := map[string]int{}
 	solverTime := 0.0
+	vacChecked, vacuous, deadSites := 0, 0, 0
+	for _, m := range vacuityReport(res.obls) {
+		fmt.Println(m)
+		vacuous++
+	}
 	for _, ob := range res.obls {
+		if ob.Vacuity {
+			vacChecked++
+			if ob.Status == "unsat" {
+				deadSites++
+			}
+			continue
+		}
 		isTwin := strings.HasSuffix(ob.Name, "!unrestricted")
 		if isTwin {
 			if ob.Status != "unsat" {
@@ -177,9 +189,12 @@ func reportProperty(e *Engine, o runOpts, res *propResult) int {
 	}
 	total := 0
 	for _, ob := range res.obls {
-		if !strings.HasSuffix(ob.Name, "!unrestricted") {
+		if !strings.HasSuffix(ob.Name, "!unrestricted") && !ob.Vacuity {
 			total++
 		}
+	}
+	if vacuous > 0 {
+		return 2
 	}
 	prelude := e.FullPrelude()
 	for _, ob := range failed {
@@ -247,6 +262,9 @@ func reportProperty(e *Engine, o runOpts, res *propResult) int {
 		"solver_queries":         res.pool.queries,
 		"cache_hits":             res.pool.cached,
 		"known_findings_reported": known,
+		"vacuity_checks":          vacChecked,
+		"unreachable_return_sites": deadSites,
+		"vacuity_note":            "for every return site of every function under contract the query 'assumptions ==> false' was posed; a function whose return sites are ALL unreachable is reported as a machinery error (contradictory assumptions); single unreachable sites are dead error handling",
 		"samples":                samples,
 		"explanation":            "every obligation is a verification condition generated from the SSA of /repo's current working tree for the functions listed, against the contracts in /repo/contracts_verif.go; discharged = answered unsat",
 	}
